@@ -98,7 +98,16 @@ func runRemote(o *opts) {
 			} else {
 				must(os.WriteFile(abs, genContent(rr, &pool), 0o644))
 			}
-			p.writeStage(name, &StageRec{In: ins, Out: []Art{{Path: art, IsDir: isDir}}})
+			outs := []Art{{Path: art, IsDir: isDir}}
+			if rr.chance(1, 3) {
+				// a skip-cache output beside the cached one (a metrics file kept in git): nothing of it
+				// travels, and it must not end the transfer of its siblings
+				m := art + "_metrics.txt"
+				must(os.WriteFile(filepath.Join(p.Root, m), []byte("metrics of "+art), 0o644))
+				outs = append([]Art{{Path: m, Skip: true}}, outs...)
+				s.count("stage-with-skip-cache-and-cached-outputs")
+			}
+			p.writeStage(name, &StageRec{In: ins, Out: outs})
 			stages = append(stages, name)
 		}
 		mk("a.yaml", "A", rr.chance(2, 3), nil)
